@@ -19,6 +19,13 @@ Model of the JSON reader and compact writer as xt drives them
 Bytes and code points are `Nat`s.  Errors are serde_json's `ErrorCode`s (the
 position is not modelled) plus `utf8` for xt's up-front check of a slice.
 
+Both loops keep duplicate object keys, in input order: the slice path collects
+them into `transcode::Value::Map` (a `Vec` of pairs), the reader path streams
+them.  What differs (known finding K3) is what a *target* does with the
+collected value versus the streamed entries — outside this file.  Also outside:
+on a failure the reader path has already written a prefix of the failing
+document (it streams); the loops here return complete documents only.
+
 NOT modelled: decimal text ↔ binary64.  A float is carried as the source text
 of its literal (`JVal.float src`); the writer takes the composition
 "text → f64 → shortest text" as the parameter `ExtFloat.fmt`.  What *is*
